@@ -41,6 +41,9 @@ class Contour:
         self.npts = 2 * ny + 1
         self.fine = Fine(env, name, self.npts + 2 * extra, extra)
         self.extra = extra
+        # index of the first grid point within the coarse contour (differs from the fine contour's startInd)
+        self.startInd = 0
+        self.endInd = self.npts - 1
 
     def get_fine_contour(self, psi=None):
         return self.fine
